@@ -43,22 +43,25 @@ META = dict(
     technique="Lean 4 theorems about the scope chain, heap and call-frame functions the executable evaluator model calls + differential "
               "correspondence of the whole model with Runtime.Eval on exhaustive and random programs with probes and scope dumps",
     level_text=("Proof (about functions of Model/Eval.lean that runFunction / runBuiltin call — runFunction_uses_buildFrame, runBuiltin_uses, "
-                "addSuperClasses_order are the unfolding equations): lookup_nearest, assign_nearest_or_local (+ one scope touched, heap untouched), "
-                "let_local, inner_not_visible_outside; full call frames on buildFrame: call_fresh_locals (new scope index, only this/super/"
-                "parameters defined), closure_sees_definition_scope (frame linked to the DECLARATION scope), call_does_not_write_enclosing_frames "
-                "(every outcome), args_missing_default_extra_ignored; len_add_del_model: len, add = Go append with the aliasing cases (same "
-                "backing array when capacity suffices: shorter aliases keep their elements; new array otherwise: no alias changes), del(list,i) "
-                "shifts inside the same array, del(map,k) filters the string form of k, argument errors; read_after_write (map cell, number and "
-                "string keys, fix 5e0a7a5), prims_by_value_containers_by_ref, read_after_write_paths (any nesting, acyclic tree values); objects: "
-                "new_has_all_template_props_partial (every string key of a template arrives, inherited keys stay), own_property_wins, "
-                "method_this_partial (stored method = new function bound to the object cell), init_once_with_args (init of the finished object "
-                "runs exactly once with the constructor arguments, last)."),
-    level_note=("Tested only (differential, no theorem): add(l, v, i) insertion and concat against the model; the transitive statement over "
-                "super templates of new (induction over super lists missing) and that a method body reads `this` = the object (frame value not "
-                "tracked through parameter writes). Number-key theorems assume == is reflexive on the float of the index (not NaN; Lean's Float "
-                "is opaque); object key theorems are about string keys. Frame theorems assume parameter names without access path and that "
-                "evaluating a default leaves the scope in question and the unreachable new frame alone. Programs whose result shows an error "
-                "object / non-integral float text are outside the model (counted as not compared)."),
+                "addSuperClasses_order, superLoop_order are the unfolding equations): lookup_nearest, assign_nearest_or_local (+ one scope "
+                "touched, heap untouched), let_local, inner_not_visible_outside; call frames on buildFrame: call_fresh_locals, "
+                "closure_sees_definition_scope, call_does_not_write_enclosing_frames (every outcome), args_missing_default_extra_ignored; "
+                "len_add_del_model and add_insert_concat_model: len, add = Go append and add(l,v,i) = insertion with the aliasing cases (same "
+                "backing array when capacity suffices, new array otherwise), del(list,i), del(map,k), concat (always a new array), argument "
+                "errors; read_after_write (map cell, number and string keys, fix 5e0a7a5), prims_by_value_containers_by_ref, "
+                "read_after_write_paths; objects: new_has_all_template_props (every string key of the template and of every super template "
+                "reachable through the super lists, transitively, is a key of the object; own non-function property wins; later super over "
+                "earlier by copy order), method_this (frame of a bound function: nearest `this` = the frame's own, value = the object cell), "
+                "init_once_with_args + init_once_with_args_and_supers + init_reads_super (init of the finished object runs exactly once, last, "
+                "with the constructor arguments; its super = the list of collected super inits in order), addSuperClasses_no_fuel (cyclic "
+                "super graph: fuel)."),
+    level_note=("Hypotheses: number-key theorems assume == is reflexive on the float of the index (not NaN; Lean's Float is opaque); object "
+                "key theorems are about string keys, templates are cells other than the fresh object and slot 0 of the list store is the nil "
+                "slice; frame theorems assume parameter names without access path, no parameter named this/super for the this/super value "
+                "theorems, and that evaluating a default leaves the scope in question and the unreachable new frame alone. Slice theorems "
+                "assume the slice invariant len <= capacity. A template that reaches itself through `super` exhausts the model's fuel (HANG); "
+                "the Go code recurses without bound there (stack overflow, see C06) — such cyclic containers are kept out of the generator. "
+                "Programs whose result shows an error object / non-integral float text are outside the model (counted as not compared)."),
 )
 
 
